@@ -50,6 +50,8 @@ TABLE = {
     92: ("get_node_by_index(0)", "opt", ()), 93: ("get_node_by_index(1000)", "opt", ()),
     94: ("single_source(option sweep)", "res", ()), 95: ("multi_source(option sweep)", "res", ()),
     96: ("all_pairs(option sweep)", "res", ()),
+    97: ("eigenvector_centrality(option values)", "res", (S,)), 98: ("louvain(option values)", "res", ()),
+    99: ("average_clustering(count_zeros=false)", "res", (S,)), 100: ("single_source(cutoff 0)", "res", ()),
 }
 
 
@@ -118,7 +120,7 @@ class ApiProp(props.BaseProp):
             "self-loop, edgeless, isolated node + component, path with degree-1 tails, star, triangle with a tail, "
             "parallel / antiparallel edges, two components, K4, self-loops on every node, cycle, random) x weights "
             "{unweighted, 1..3, mixed, 0..2 with many zeros}, names whose sort order differs from insertion order; on each graph every public "
-            "function of the crate (96 call shapes incl. every option combination of the shortest-path entry points) is called with names of the graph and, for functions with a "
+            "function of the crate (100 call shapes incl. every option combination of the shortest-path entry points) is called with names of the graph and, for functions with a "
             "Result/Option channel, one absent name, in a debug AND a release build, each under a 4 s watchdog; "
             "non-trivial = the graph has at least one node; distinct = distinct case text")
     trusted_extra = ["C20 has no model diff of its own: the outcome classes of the algorithm families are compared with "
@@ -216,10 +218,17 @@ class ApiProp(props.BaseProp):
         return out
 
     manifest = {
-        "text": "Proved (unbounded, under the coherence invariant that holds after every history): add_node/add_edge and the "
-                "pair / per-node queries never reach one of the Rust code's unwrap/index/lookup sites (each is a Panic site "
-                "in the model), existing names yield Ok, absent names yield NodeNotFound/None, the directed-only queries "
-                "answer WrongMethod on undirected graphs. The algorithm families carry their own no-panic / fuel-suffices "
+        "text": "Proved (unbounded, under the coherence invariant WF that holds after every history; generic name type): "
+                "add_node/add_edge never reach one of the Rust code's unwrap/index/lookup sites (each is a Panic site in the "
+                "model); EVERY modelled query of query.rs / degree.rs and the Result-returning constructors of convert.rs is "
+                "total for every argument - present or absent names, any graph kind: the outcome is Ok or Err, never a Panic "
+                "site, never out of fuel (C20_every_query_total: 16 per-node functions, get_edge/get_edges, the four node-set "
+                "functions, reverse, to_single_edges; C20_every_query_total_after_any_history); the six *_for_all_nodes degree "
+                "maps never hit their inner unwrap and have one entry per node, the directed-only ones answer WrongMethod on "
+                "undirected graphs (C20_degree_maps_total); get_subgraph / set_all_edge_weights never hit their unwrap; the "
+                "sparse adjacency matrix never indexes an empty group (C20_matrix_total); functions without an error channel "
+                "(get_successors_or_neighbors) are total on existing names; existing names yield Ok, absent names "
+                "NodeNotFound/None. The algorithm families carry their own no-panic / fuel-suffices "
                 "theorems (C04-C06, C10-C13, C18, C19). Beyond the theorems the check sweeps EVERY public function x 8 "
                 "graph kinds x 14 degenerate shapes x existing/absent names in debug and release builds under a watchdog "
                 "and applies the property's rules (no panic, no hang, error channel used for unsupported kinds and absent "
